@@ -336,7 +336,8 @@ class CSSSerializer:
         if self.prefs.defaultAtKeyword:
             return rule.atkeyword  # default
         else:
-            return rule._keyword
+            # not every rule records the keyword as written
+            return getattr(rule, '_keyword', None) or rule.atkeyword
 
     def _indentblock(self, text, level):
         """
